@@ -1358,6 +1358,8 @@ pub fn names_family(tier: Tier) -> Vec<Member> {
             (memory $m1 (@name "same") (export "m1") 1) (memory $m2 (@name "same") 2)
             (data $d1 (@name "same") (memory $m1) (i32.const 0) "a") (data $d2 (@name "same") (memory $m2) (i32.const 0) "b")
             (elem $e1 (@name "same") (table $t1x) (i32.const 0) func $f1) (elem $e2 (@name "same") (table $t2x) (i32.const 0) func $f2))"#),
+        ("named types after a pair of identical types", r#"(module (type $a (func)) (type $dup (func)) (type $unary (func (param i32))) (type $bin (func (param i32 i32)))
+            (func $f (export "f") (type $a)) (func $g (export "g") (type $dup)) (func $h (export "h") (type $unary)) (func $i (export "i") (type $bin)))"#),
         ("only imported entities are named", r#"(module (import "env" "tbl" (table $imp_t 4 funcref)) (import "env" "mem" (memory $imp_m 1)) (import "env" "g" (global $imp_g i32))
             (table 2 funcref) (memory 1) (global (mut i32) (i32.const 1))
             (func (export "f") (result i32) (global.set 1 (global.get $imp_g)) (i32.load8_u $imp_m (i32.const 0)) (drop) (table.size 1) (drop) (table.size $imp_t)))"#),
@@ -2269,6 +2271,19 @@ pub fn minimal_family() -> Vec<Member> {
             (func $b (export "b") (type $t) (drop (call $a)) (return_call $a)) (func (export "c") (type $t) (drop (call_indirect (type $t) (i32.const 0))) (return_call_indirect (type $t) (i32.const 0))))"#),
         // br_table without targets (only the default label) carrying a value
         ("br-table-default-only-with-value", r#"(module (func (export "f") (param i32) (result i32) (i32.const 8420) (drop) (block (result i32) (i32.const 7) (local.get 0) (br_table 0))))"#),
+        // indirect tail calls through the second of two funcref tables, callee type not the first type
+        ("return-call-indirect-through-the-second-table", r#"(module (type $v (func)) (type $t (func (param i32) (result i32))) (table $first 2 funcref) (table $second 2 funcref)
+            (func $a (type $t) (i32.const 8430)) (func $b (type $t) (i32.const 8431)) (func $nop (type $v))
+            (elem (table $first) (i32.const 0) func $a) (elem (table $second) (i32.const 0) func $b)
+            (func (export "run") (type $t) (call $nop) (return_call_indirect $second (type $t) (local.get 0) (i32.const 0)))
+            (func (export "run1") (type $t) (return_call_indirect $first (type $t) (local.get 0) (i32.const 0))))"#),
+        ("return-call-indirect-single-table-callee-type-not-first", r#"(module (type $v (func)) (type $t (func (param i32) (result i32))) (table 2 funcref)
+            (func $b (type $t) (i32.const 8432)) (func $nop (type $v)) (elem (i32.const 0) func $b)
+            (func (export "run") (type $t) (call $nop) (return_call_indirect (type $t) (local.get 0) (i32.const 0))))"#),
+        // atomics on the second memory
+        ("atomics-on-the-second-memory", r#"(module (memory $m0 1 1 shared) (memory $m1 1 1 shared)
+            (func (export "f") (result i32) (i32.const 8433) (drop) (drop (memory.atomic.notify $m1 offset=8 (i32.const 0) (i32.const 1)))
+              (drop (memory.atomic.wait32 $m1 (i32.const 0) (i32.const 0) (i64.const 0))) (i32.atomic.load $m1 (i32.const 0))))"#),
         ("imported-table-named", r#"(module (import "env" "tbl" (table $t 4 funcref)) (table $own 2 funcref) (func $f (export "f") (result i32) (i32.const 8358) (drop) (i32.add (table.size $t) (table.size $own))))"#),
         // two functions whose operator counts in the input order them differently from their counts
         // after a round trip (nops and dead code disappear, an else-less if may gain an `else`)
